@@ -1,4 +1,9 @@
 import NbioVerif.Lemmas.C09Stage2
+import NbioVerif.Lemmas.C09Bridge
+import NbioVerif.Lemmas.C09Rfc
+import NbioVerif.Lemmas.C09AutoLen
+import NbioVerif.Lemmas.C09Account
+import NbioVerif.Lemmas.C09ReadFrom
 /-! C09 HTTP response framing — property theorems over the model `Resp` (nbhttp/response.go). -/
 namespace Resp
 
@@ -206,6 +211,22 @@ theorem c09_framing_choice (g : Cfg) (hdr : Header) (sc : Nat) (st : Bytes) (hs 
       rfcChunked g.proto11 hdr (if sc = 0 then 200 else sc) :=
   framing_choice g hdr sc st hs
 
+/-- **C09 stage 1, framing against the RFC, independent side.** `RfcFraming` (Lemmas/C09Rfc.lean) states RFC
+7230 §3.3.1–§3.3.3/§4.1.2 as constraints on what a server announces — Transfer-Encoding only towards
+HTTP/1.1 and never on 1xx/204/304, never together with Content-Length, trailers only in chunked coding, a
+possible body on a persistent connection always self-delimiting — without mentioning how the decision is
+computed.  For satisfiable requests (`saneFraming`) and a sane status (`saneStatus`: a final status, no
+chunked/trailers asked on 204/304) the decision of `checkChunked` AND the header map it leaves (which the head
+encoder prints: `c09_stage2_head`, `c09_stage2_head_framing`) satisfy them.  (`c09_framing_choice` only says
+that the code computes the decision table `rfcChunked`, which mirrors the code's three disjuncts.) -/
+theorem c09_framing_rfc (g : Cfg) (hdr : Header) (sc : Nat) (st : Bytes) (hs : saneFraming g hdr = true)
+    (hst : saneStatus hdr (if sc = 0 then 200 else sc) = true) :
+    RfcFraming g.proto11 (body0 g hdr sc st).statusCode
+      ((hget hdr kTE).contains (str "chunked")) (decide (hget hdr kTrailer ≠ []))
+      ((hget (body0 g hdr sc st).header kTE).contains (str "chunked"))
+      (decide (hget (body0 g hdr sc st).header kCL ≠ [])) (body0 g hdr sc st).chunked :=
+  framing_rfc g hdr sc st hs hst
+
 /-! ### `Sane` and the combined stage-1 statement -/
 
 def BOp.sizeOk : BOp → Bool
@@ -269,6 +290,44 @@ theorem c09_stage1 (g : Cfg) (hg : g.failAt = 0) (hdr : Header) (sc : Nat) (st :
   obtain ⟨T, hT, _⟩ := h2 hc
   exact ⟨T, hT⟩
 
+/-! ### the function the driver runs
+
+`respdrv` executes `step` op by op from the empty response and `finish` at the end, i.e.
+`finish g (run g {} prog)`.  A handler program is a header phase `pre` (header changes, WriteHeader,
+zero-length writes: `Op.headerPhase`) followed by a body phase (`bodyStart`: it begins with a Flush or a
+non-empty Write — or is empty).  `run_bridge` (Lemmas/C09Bridge.lean) identifies that run with the
+`runB`/`body0` form all theorems of this file are stated in. -/
+
+/-- **C09, model run = model proved.** The wire and the close verdict the driver computes for
+`pre ++ body` are `wireOf`/`finish ∘ endState` of the theorems, for the header map and status the header
+phase left behind. -/
+theorem c09_driver_run (g : Cfg) (pre : List Op) (hpre : ∀ op ∈ pre, op.headerPhase = true)
+    (bops : List BOp) (hb : bodyStart bops) :
+    (finish g (run g {} (pre ++ bops.map BOp.toOp)).1).1.wire.flatten =
+      wireOf g (run g {} pre).1.header (run g {} pre).1.statusCode (run g {} pre).1.status bops ∧
+    (finish g (run g {} (pre ++ bops.map BOp.toOp)).1).2 =
+      (finish g (endState g (run g {} pre).1.header (run g {} pre).1.statusCode (run g {} pre).1.status bops)).2 := by
+  rw [run_bridge g pre hpre bops hb]
+  exact ⟨rfl, rfl⟩
+
+/-- **C09 stage 1 on the driver's function**: `c09_stage1` restated for `finish (run g {} (pre ++ body))`. -/
+theorem c09_stage1_driver (g : Cfg) (hg : g.failAt = 0) (pre : List Op) (hpre : ∀ op ∈ pre, op.headerPhase = true)
+    (bops : List BOp) (hb : bodyStart bops) (hs : sane g (run g {} pre).1.header bops = true) :
+    let r0 := (run g {} pre).1
+    let wire := (finish g (run g {} (pre ++ bops.map BOp.toOp)).1).1.wire.flatten
+    let acc := accepted g r0.header r0.statusCode r0.status bops
+    let ch := rfcChunked g.proto11 r0.header (if r0.statusCode = 0 then 200 else r0.statusCode)
+    ∃ (H F : Bytes), wire = H ++ F ∧
+      (ch = false → F = acc.flatten) ∧
+      (ch = true → ∃ T, unchunk ((nonEmpty acc).length + 1) F = some (acc.flatten, T)) := by
+  intro r0 wire acc ch
+  obtain ⟨e, H, F, w, h1, h2⟩ := c09_stage1 g hg r0.header r0.statusCode r0.status bops hs
+  refine ⟨H, F, ?_, ?_, ?_⟩
+  · show (finish g (run g {} (pre ++ bops.map BOp.toOp)).1).1.wire.flatten = _
+    rw [(c09_driver_run g pre hpre bops hb).1]; exact w
+  · intro hc; exact h1 (by rw [e]; exact hc)
+  · intro hc; exact h2 (by rw [e]; exact hc)
+
 /-! ## Stage 2: the head
 
 With the concrete head encoder `headBytes` (`g.head = headBytes g`), for programs whose body-phase header
@@ -316,6 +375,53 @@ theorem c09_stage2_head (g : Cfg) (hg : g.failAt = 0) (hreal : g.head = headByte
     have : statusBody g rE = statusBody g (body0 g hdr sc st) := by unfold statusBody; rw [l1, l2]
     rw [this]
   · exact parseStatusLine_statusBody g _ (fun c hc => (hs.proto c hc).2) hs.code
+
+/-- **C09 stage 2, head and framing agree.** Under the hypotheses of `c09_stage2_head`, with satisfiable
+framing requests and `Transfer-Encoding` not declared as a trailer: in chunked mode the parsed head contains the
+field `Transfer-Encoding: chunked` and NO `Content-Length` field (neither the handler's nor an automatic one);
+in identity mode no automatic or handler field announces chunked coding. -/
+theorem c09_stage2_head_framing (g : Cfg) (hg : g.failAt = 0) (hreal : g.head = headBytes g)
+    (hdr : Header) (sc : Nat) (st : Bytes) (ops : List BOp) (hok : ∀ op ∈ ops, op.ok)
+    (htr : ∀ op ∈ ops, op.trailerOnly (body0 g hdr sc st).header)
+    (hs : SaneHeaders g (body0 g hdr sc st)) (hsf : saneFraming g hdr = true)
+    (htk : (hget (body0 g hdr sc st).header kTrailer).contains kTE = false) :
+    ∃ (fields : List (Bytes × Bytes)) (F : Bytes),
+      parseHead (wireOf g hdr sc st ops) = some (statusBody g (body0 g hdr sc st), fields, F) ∧
+      ((body0 g hdr sc st).chunked = true →
+        (kTE, str "chunked") ∈ fields ∧ ∀ p ∈ fields, p.1 ≠ kCL) := by
+  obtain ⟨rE, F, hp, _, hch, _⟩ := c09_stage2_head g hg hreal hdr sc st ops hok htr hs
+  refine ⟨_, F, hp, ?_⟩
+  intro hc
+  obtain ⟨_, _, o3, _⟩ := framing_obs g hdr sc st hsf
+  obtain ⟨w1, w2, w3, w4⟩ := writeHeader200_sane g hdr sc st hsf
+  constructor
+  · apply List.mem_append_right
+    apply mem_handlerPairs_of_hget _ _ _ _ _ htk
+    have : (hget (body0 g hdr sc st).header kTE).contains (str "chunked") = true := by
+      show (hget (checkChunked g (writeHeader200 (start hdr sc st))).header kTE).contains (str "chunked") = true
+      rw [o3]; exact hc
+    simpa using this
+  · intro p hp'
+    rcases List.mem_append.mp hp' with h1 | h1
+    · -- automatic fields: Content-Length only when not chunked
+      unfold autoPairs at h1
+      rw [hch, hc] at h1
+      simp only [Bool.not_true, Bool.false_and, Bool.false_eq_true, ↓reduceIte, List.append_nil, List.nil_append,
+        List.mem_append] at h1
+      have hne1 : kCT ≠ kCL := by decide
+      have hne2 : kConn ≠ kCL := by decide
+      have hne3 : kDate ≠ kCL := by decide
+      rcases h1 with (h1 | h1) | h1
+      · split at h1
+        · simp only [List.mem_singleton] at h1; rw [h1]; exact hne1
+        · cases h1
+      · split at h1
+        · simp only [List.mem_singleton] at h1; rw [h1]; exact hne2
+        · cases h1
+      · split at h1
+        · simp only [List.mem_singleton] at h1; rw [h1]; exact hne3
+        · cases h1
+    · exact not_mem_handlerPairs _ _ kCL (checkChunked_no_cl g _ w3 w4 hc) p h1
 
 /-- **C09 stage 2, trailer section.** What follows the last-chunk line `0 CRLF` is the rendering of the
 trailer fields — the keys declared in `Trailer` when the head was encoded, each with the value the header map
@@ -380,6 +486,16 @@ theorem c09_readfrom_after_write_counterexample :
       [some (.ok 10), some .panic] := by
   decide
 
+/-- **outside `saneStatus` (handler error, not a finding).** nbhttp has no informational responses: a handler
+that picks a 1xx status, or asks for trailers on a 204, gets a chunked body — `Transfer-Encoding` on a status
+that must not carry it (RFC 7230 §3.3.1).  This is why `c09_framing_rfc` needs `saneStatus`. -/
+theorem c09_bodiless_chunked_counterexample :
+    (finish cfg11 (start [(kDate, [str "D"])] 101 (str "S"))).1.wire.flatten =
+      str "HTTP/1.1 101 S\r\nDate: D\r\nTransfer-Encoding: chunked\r\n\r\n" ++ str "0\r\n\r\n" ∧
+    (finish cfg11 (start [(kDate, [str "D"]), (kTrailer, [str "X"]), (str "X", [str "v"])] 204 (str "N"))).1.wire.flatten =
+      str "HTTP/1.1 204 N\r\nDate: D\r\nTrailer: X\r\nTransfer-Encoding: chunked\r\n\r\n" ++ str "0\r\nX: v\r\n\r\n" := by
+  decide
+
 end witnesses
 
 /-- **partial statement for identity framing without Content-Length.** If the handler never calls Flush
@@ -417,6 +533,136 @@ theorem c09_identity_auto_length_partial (g : Cfg) (hg : g.failAt = 0) (hdr : He
   rw [f1, hc]
   unfold hdAfter
   simp [hne, hid, framed_identity]
+
+/-- **C09, identity framing, automatic Content-Length.** No Content-Length from the handler, identity framing
+(an HTTP/1.0 request), no Flush, body-phase header operations on declared trailers only, the real head encoder:
+the reference parser reads the wire as the handler's status line, a field list that contains
+`Content-Length: <decimal length of the body>` (`0` for an empty body), and EXACTLY the concatenation of the
+accepted writes as the body.  (With a Flush before the last write this fails: finding
+`resp-flush-identity-nocl`, `c09_flush_identity_counterexample`.) -/
+theorem c09_identity_auto_length (g : Cfg) (hg : g.failAt = 0) (hreal : g.head = headBytes g)
+    (hdr : Header) (sc : Nat) (st : Bytes) (ops : List BOp) (hok : ∀ op ∈ ops, op.ok) (hnf : ∀ op ∈ ops, op ≠ .flush)
+    (htr : ∀ op ∈ ops, op.trailerOnly (body0 g hdr sc st).header)
+    (hs : SaneHeaders g (body0 g hdr sc st))
+    (hid : (body0 g hdr sc st).chunked = false) (hnocl : hget (body0 g hdr sc st).header kCL = []) :
+    ∃ fields : List (Bytes × Bytes),
+      parseHead (wireOf g hdr sc st ops) =
+        some (statusBody g (body0 g hdr sc st), fields, (accepted g hdr sc st ops).flatten) ∧
+      (kCL, if (accepted g hdr sc st ops).flatten = [] then str "0"
+            else fmtDec (accepted g hdr sc st ops).flatten.length) ∈ fields := by
+  have hcl0 : (body0 g hdr sc st).contentLen = 0 := by
+    show (checkChunked g (writeHeader200 (start hdr sc st))).contentLen = 0
+    unfold checkChunked writeHeader200 writeHeader start
+    dsimp only
+    repeat' split
+    all_goals rfl
+  have hv : verdict (body0 g hdr sc st) = some 0 := by
+    unfold verdict contentLength
+    simp [hcl0, hfirst, hnocl]
+  obtain ⟨w, hbuf⟩ := c09_identity_auto_length_partial g hg hdr sc st ops hok hnf hid (Or.inr hv)
+  have hf : Fresh (body0 g hdr sc st) := fresh_prelude g _ ⟨rfl, rfl, rfl, rfl⟩
+  have hp : Pre (body0 g hdr sc st) := pre_prelude g _
+  have hw := start_winv _ hf hp
+  obtain ⟨hd', _, _, _, ⟨l1, l2, l3, l4⟩, _⟩ :=
+    runB_spec g hg (verdict (body0 g hdr sc st)) ops hok (SameHead (body0 g hdr sc st).header)
+      (fun op hop h hh => sameHead_op _ h op (htr op hop) hh) _ _ _
+      (body0 g hdr sc st) none [] hw ⟨rfl, rfl, rfl, ⟨rfl, fun _ _ => rfl⟩⟩ (by intro H hH; cases hH)
+  have hsE : SaneHead g (endState g hdr sc st ops) := by
+    refine ⟨fun c hc => (hs.proto c hc).1, by rw [l2]; exact hs.status, by rw [l1]; exact hs.code, ?_, ?_⟩
+    · rw [l4.1]; exact hs.names
+    · rw [l4.1]; exact hs.values
+  have hsb : statusBody g (endState g hdr sc st ops) = statusBody g (body0 g hdr sc st) := by
+    unfold statusBody; rw [l1, l2]
+  refine ⟨_, by rw [w, hreal, parseHead_headBytes g _ _ hsE, hsb], ?_⟩
+  apply List.mem_append_left
+  have hch : (endState g hdr sc st ops).chunked = false := by rw [l3]; exact hid
+  have hncl : hget (endState g hdr sc st ops).header kCL = [] := by
+    rw [l4.2 kCL (by decide)]; exact hnocl
+  unfold autoPairs
+  simp only [hch, hncl, Bool.not_false, Bool.true_and, beq_self_eq_true, ↓reduceIte, List.mem_append,
+    List.mem_singleton]
+  left; left; right
+  congr 1
+  have hhb := runB_hasBody g ops (body0 g hdr sc st)
+  cases hbb : (endState g hdr sc st ops).bodyBuffer with
+  | none =>
+    rw [hbb] at hbuf
+    simp only [Option.getD_none] at hbuf
+    simp [← hbuf]
+  | some bb =>
+    rw [hbb] at hbuf
+    simp only [Option.getD_some] at hbuf
+    by_cases he : (accepted g hdr sc st ops).flatten = []
+    · rw [he] at hbuf
+      simp [hbuf, he]
+    · have hb : (endState g hdr sc st ops).hasBody = true := hhb (Or.inr he)
+      have hlen : bb.length > 0 := by
+        rw [hbuf]
+        cases hx : (accepted g hdr sc st ops).flatten with
+        | nil => exact absurd hx he
+        | cons a t => simp
+      subst hbuf
+      rw [if_neg he, hb]
+      simp only [Bool.true_and]
+      rw [if_pos (by simpa using hlen)]
+
+/-- **C09, Content-Length accounting.** Identity framing on a connection that accepts the writes: after any body
+phase the counter `bodyWritten` that `Write` compares with the declared Content-Length equals the number of
+payload bytes accepted so far — every byte is counted exactly once on every path (direct sends of 64 KiB and
+more, cache flushes, appends) — and therefore a further Write is refused with http.ErrContentLength ONLY IF
+accepted + |data| exceeds the length `contentLength()` reads from the header: a handler that stays within its
+declaration is never refused, so its body is never cut short. -/
+theorem c09_content_length_accounting (g : Cfg) (hg : g.failAt = 0) (hdr : Header) (sc : Nat) (st : Bytes)
+    (ops : List BOp) (hid : (body0 g hdr sc st).chunked = false) (d : Bytes) (hd : d ≠ []) :
+    (endState g hdr sc st ops).bodyWritten = (accepted g hdr sc st ops).flatten.length ∧
+    ((write g (endState g hdr sc st ops) d).2 = .errCL →
+      ∃ cl, verdict (endState g hdr sc st ops) = some cl ∧ cl > 0 ∧
+        (accepted g hdr sc st ops).flatten.length + d.length > cl) := by
+  have hbw0 : (body0 g hdr sc st).bodyWritten = 0 := by
+    show (checkChunked g (writeHeader200 (start hdr sc st))).bodyWritten = 0
+    rw [checkChunked_bw]
+    unfold writeHeader200
+    rw [writeHeader_bw]
+    rfl
+  have hp : Pre (body0 g hdr sc st) := pre_prelude g _
+  obtain ⟨a1, a2, a3⟩ := runB_account g hg ops (body0 g hdr sc st) hp hid
+  rw [hbw0, Nat.zero_add] at a1
+  refine ⟨a1, ?_⟩
+  intro he
+  change (write g (runB g (body0 g hdr sc st) ops).1 d).2 = .errCL at he
+  rw [write_unfold g _ d hd a2] at he
+  obtain ⟨cl, h1, h2, h3⟩ := writeBody_errCL g _ d (by exact a3) he
+  refine ⟨cl, ?_, h2, ?_⟩
+  · rw [← h1]
+    exact (verdict_eq (runB g (body0 g hdr sc st) ops).1 { (runB g (body0 g hdr sc st) ops).1 with hasBody := true } rfl rfl).symm
+  · rw [← a1]; exact h3
+
+/-- **C09, ReadFrom in the `http.ServeContent` shape** (what `io.Copy(w, r)`, `http.ServeContent` and
+`http.ServeFile` reach): after any header phase `pre` that leaves an explicit, valid Content-Length and no request
+for chunked coding or trailers, on a connection that accepts the writes, `ReadFrom` of a reader that yields `data`
+— a plain reader (io.Copy in 32 KiB conn writes), an `*os.File` or an `io.LimitedReader` (Sendfile when the conn
+offers it) — returns `len(data)`, and after flushResponse the wire is the head followed by EXACTLY `data`; the
+connection is closed iff the request asked for it.  (The state is the one the driver reaches: `run g {} pre`.) -/
+theorem c09_readfrom_serve_content (g : Cfg) (hg : g.failAt = 0) (pre : List Op)
+    (hpre : ∀ op ∈ pre, op.headerPhase = true) (k : RKind) (data : Bytes)
+    (hs : saneFraming g (run g {} pre).1.header = true)
+    (hte : (hget (run g {} pre).1.header kTE).contains (str "chunked") = false)
+    (htr : hget (run g {} pre).1.header kTrailer = [])
+    (hcl : hfirst (run g {} pre).1.header kCL ≠ []) :
+    (step g (run g {} pre).1 (.readFrom k data)).2 = some (.ok data.length) ∧
+    (finish g (step g (run g {} pre).1 (.readFrom k data)).1).1.wire.flatten =
+      g.head { writeHeader200 (run g {} pre).1 with hasBody := true } ++ data ∧
+    (finish g (step g (run g {} pre).1 (.readFrom k data)).1).2 = g.reqClose := by
+  obtain ⟨h1, _⟩ := run_pre g pre [] {} hpre rfl
+  unfold HeaderOnly at h1
+  obtain ⟨a, b, c⟩ := readFrom_spec g hg (run g {} pre).1.header (run g {} pre).1.statusCode (run g {} pre).1.status
+    k data hs hte htr hcl
+  rw [← h1] at a b c
+  simp only [step]
+  generalize readFrom g (run g {} pre).1 k data = p at *
+  obtain ⟨r', w⟩ := p
+  dsimp only at a b c ⊢
+  exact ⟨by rw [a], b, c⟩
 
 /-! ### non-vacuity -/
 
